@@ -171,7 +171,7 @@ fn initial_states(tier: Tier, scratch: &Scratch) -> Vec<InitialSpec> {
             continue;
         }
         let files = vec![WFile { method: mpqref::M_ZLIB, ..WFile::plain(W_NAME, &contents(9)) }, WFile::plain("pre\\existing.bin", &contents(10))];
-        let opt = WOptions { version: ver, shift: 3, hash_size: hs, listfile: true, userdata_prefix: 0, deleted_slots: vec![] };
+        let opt = WOptions { version: ver, shift: 3, hash_size: hs, listfile: true, userdata_prefix: 0, deleted_slots: vec![], reuse_deleted: true };
         let bytes = mpqref::write(&files, &opt).unwrap();
         let mut m = Model::new();
         m.insert(fold(W_NAME), contents(9));
@@ -666,7 +666,7 @@ fn main() {
         {
             // independently written archive, 8-slot table: W, A, B + listfile
             let files = vec![WFile::plain(W_NAME, &contents(9)), WFile { method: mpqref::M_ZLIB, ..WFile::plain(&nm[0], &contents(1)) }, WFile::plain(&nm[1], &contents(0))];
-            let opt = WOptions { version: 0, shift: 3, hash_size: 8, listfile: true, userdata_prefix: 0, deleted_slots: vec![] };
+            let opt = WOptions { version: 0, shift: 3, hash_size: 8, listfile: true, userdata_prefix: 0, deleted_slots: vec![], reuse_deleted: true };
             let bytes = mpqref::write(&files, &opt).unwrap();
             let key = canon_key(&bytes);
             std::fs::write(scratch.path(&format!("{key}.mpq")), &bytes).unwrap();
